@@ -133,7 +133,7 @@ class C14(fw.Prop):
             "reference encoding = Spec.Axdr.encode (driver), parse_as_dlms_data(encoding) = the tree's Python value, every proper prefix "
             "(thorough) or <= 40 prefixes per tree (quick) refused, two concatenated values give a 2-list; encoders (to_bytes) of the four "
             "classes that have one against Spec for in-range and out-of-range values; random/mutated byte strings compare the model of the "
-            "decoder with the code outside the property; every implementation call runs under a 2 s watchdog; non-trivial = distinct line")
+            "decoder with the code outside the property; every implementation call runs under a 2 s watchdog; every decoded value is overwritten in place and the bytes decoded again; non-trivial = distinct line")
     trusted_base = ["Spec.Axdr is my reading of the Blue Book Data encoding", "C16 for the meaning of date-time strings",
                     "the harness's reference encoder is checked against Spec.Axdr.encode on every generated tree"]
     assumptions = ["non-canonical length prefixes (e.g. 0x81 0x05) are accepted by the decoder; the property speaks of standard encodings"]
